@@ -108,12 +108,20 @@ def fields_rule(rep, prog, cfg):
         fl = Flow(b)
         exp = EXPECT[adt]
         fields = s["rv"]["fields"]
-        rep.check(set(fields) == set(exp), rule, "%s/%s field set" % (cfg, short), b.loc(s["span"]),
+        rep.check(set(exp) <= set(fields), rule, "%s/%s field set" % (cfg, short), b.loc(s["span"]),
                   "struct %s has fields %s, the reference table lists %s" % (short, sorted(fields), sorted(exp)))
+        extra_fields = sorted(set(fields) - set(exp))
+        if extra_fields:
+            rep.note("fields_not_in_reference_table_%s_%s" % (cfg, short), extra_fields)
         attributed = set()
         custom_expected = set()
         for fname, op in zip(fields, s["rv"]["ops"]):
             if fname not in exp:
+                # a field added after the table was written: its keys are its own business
+                l = op_local(op)
+                for names, lits, bb in (slice_calls(b, fl, [l]) if l is not None else []):
+                    if any(n in EXTRACTORS for n in names):
+                        attributed.update(lits)
                 continue
             ekeys, emode = exp[fname]
             if emode == "custom":
